@@ -67,16 +67,18 @@ def space(tier):
     line_names = ("par[first:in-fn]", "par[first:between]", "par[first:new-op]", "par[first:new-child]",
                   "par[first:two-steps-fast]", "map[tol0:two-steps-fast]", "par[tol0:new-op]", "par[min1:between]")
     for p in programs(tier):
+        deep = not quick and p["name"] in line_names    # two deviations on the eight core shapes only (thorough)
         if p["name"] in line_names or not quick and p["name"].startswith("par["):
             # one preemption at any line of state.py / executor.py (check-then-act windows outside locks)
             units.append(({"program": p, "cfg": {"env_kinds": [], "line_files": lf}}, {"thread": 1, "total": 1}, cap))
         units.append(({"program": p, "cfg": {"env_kinds": [], "timer_choices": True}},
-                      {"thread": 1, "timer": 1, "total": 1} if quick else {"thread": 2, "timer": 1, "total": 2}, cap))
+                      {"thread": 2, "timer": 1, "total": 2} if deep else {"thread": 1, "timer": 1, "total": 1}, cap))
         for pol in ("low", "high"):
-            units.append(({"program": p, "cfg": {"env_kinds": [], "policy": pol}}, {"total": 0}, cap))
+            units.append(({"program": p, "cfg": {"env_kinds": [], "policy": pol}},
+                          {"total": 0} if quick else {"thread": 1, "total": 1}, cap))
         # histories left by a crash: the completing context and its branches are partly recorded already
         units.append(({"program": p, "cfg": {"env_kinds": ["crash"]}},
-                      {"crash": 1, "thread": 1, "total": 1 if quick else 2}, cap))
+                      {"crash": 1, "thread": 1, "total": 2 if deep else 1}, cap))
         if not quick or "par[first:" in p["name"] or "par[par[" in p["name"]:
             for pol in ("low", "high"):
                 units.append(({"program": p, "cfg": {"env_kinds": ["crash"], "policy": pol}}, {"crash": 1, "total": 1}, cap))
@@ -101,4 +103,4 @@ simcheck.install(globals(), "C10", [monitors.judge_c10], space,
                  "inside a branch); every single crash point (replays in which the completing context and its branches are "
                  "already partly recorded); one preemption at any line of state.py/executor.py on 8 (quick) / all parallel (thorough) "
                  "programs; 8 programs whose three surviving branches hand over 260 KB records at every 100 ms offset around the "
-                 "winner's 300 ms API calls (batch size limit reached next to the parent's completion record); all schedules with <=1 (quick) / <=2 (thorough) deviations, policies rtb/low/high")
+                 "winner's 300 ms API calls (batch size limit reached next to the parent's completion record); all schedules with <=1 deviation (thorough: <=2 on the eight core shapes, +1 under policies low/high), policies rtb/low/high")
